@@ -456,11 +456,25 @@ fn c12_oracle(t: &TaskCtx, oi: &Info, st: &mut Stats, f: &mut Vec<(String, Strin
 // ---------------------------------------------------------------------------------------------------- C09
 use full_moon::node::Node;
 struct StmtSpans {
-    /// (start of first token, end of last token, end including `;`, depth)
+    /// (start of first token, end of last token, end including `;`, depth); depth >= 1000 marks a statement that is reached
+    /// through an expression (the body of an anonymous function in an argument list, table, right-hand side ...)
     v: Vec<(usize, usize, usize, usize)>,
     depth: usize,
+    expr: usize,
 }
 impl full_moon::visitors::Visitor for StmtSpans {
+    fn visit_expression(&mut self, _e: &full_moon::ast::Expression) {
+        self.expr += 1;
+        if self.expr == 1 {
+            self.depth += 1000;
+        }
+    }
+    fn visit_expression_end(&mut self, _e: &full_moon::ast::Expression) {
+        if self.expr == 1 {
+            self.depth -= 1000;
+        }
+        self.expr -= 1;
+    }
     fn visit_block(&mut self, b: &full_moon::ast::Block) {
         self.depth += 1;
         for (s, semi) in b.stmts_with_semicolon() {
@@ -483,7 +497,7 @@ impl full_moon::visitors::Visitor for StmtSpans {
 
 fn stmt_spans(ast: &full_moon::ast::Ast) -> Vec<(usize, usize, usize, usize)> {
     use full_moon::visitors::Visitor;
-    let mut s = StmtSpans { v: vec![], depth: 0 };
+    let mut s = StmtSpans { v: vec![], depth: 0, expr: 0 };
     s.visit_ast(ast);
     s.v
 }
@@ -557,9 +571,15 @@ fn c09_oracle(t: &TaskCtx, out: &str, oi: &Info, st: &mut Stats, f: &mut Vec<(St
             }
         }
     }
-    // statements wholly inside come out exactly as when the whole file is formatted (top-level statements only)
-    let top_in: Vec<usize> = spans.iter().filter(|x| x.3 == 1).enumerate().filter(|(_, x)| inside(x.0, x.1)).map(|(i, _)| i).collect();
-    if top_in.is_empty() || t.cfg.sort {
+    // statements wholly inside come out exactly as when the whole file is formatted. Statements of every depth are compared
+    // (the three trees list their statements in the same order as long as the statement structure is the same); a statement
+    // nested in another covered statement is part of that one's text, so only the outermost covered statements are taken.
+    // The comparison includes the indentation in front of a statement that starts its line.
+    let all_in: Vec<usize> = (0..spans.len())
+        .filter(|i| inside(spans[*i].0, spans[*i].1))
+        .filter(|i| !(0..spans.len()).any(|j| j != *i && inside(spans[j].0, spans[j].1) && spans[j].0 <= spans[*i].0 && spans[j].1 >= spans[*i].1 && (spans[j].0, spans[j].1) != (spans[*i].0, spans[*i].1)))
+        .collect();
+    if all_in.is_empty() || t.cfg.sort {
         // (with require sorting the whole-file run may reorder statements: no index-wise comparison then)
         return;
     }
@@ -567,16 +587,35 @@ fn c09_oracle(t: &TaskCtx, out: &str, oi: &Info, st: &mut Stats, f: &mut Vec<(St
     let Out::Ok(whole) = whole else { return };
     let wi = analyse(&whole, t.cfg.syn, true);
     let (Some(wast), Some(oast)) = (&wi.ast, &oi.ast) else { return };
-    let ws: Vec<_> = stmt_spans(wast).into_iter().filter(|x| x.3 == 1).collect();
-    let os: Vec<_> = stmt_spans(oast).into_iter().filter(|x| x.3 == 1).collect();
-    let n_top = spans.iter().filter(|x| x.3 == 1).count();
-    if ws.len() != n_top || os.len() != n_top {
+    let ws = stmt_spans(wast);
+    let os = stmt_spans(oast);
+    if ws.len() != spans.len() || os.len() != spans.len() || (0..spans.len()).any(|i| ws[i].3 != spans[i].3 || os[i].3 != spans[i].3) {
         return; // statement structure changed: C02's business
     }
     *st.oracle_evals.entry("range-inside-as-whole-file").or_insert(0) += 1;
-    for i in top_in {
-        let a = &whole[ws[i].0..ws[i].2];
-        let b = &out[os[i].0..os[i].2];
+    // start of the line if only blanks precede the statement on it, else the statement's own start
+    let from = |txt: &str, at: usize| -> usize {
+        let ls = txt[..at].rfind('\n').map(|x| x + 1).unwrap_or(0);
+        if txt[ls..at].chars().all(|c| c == ' ' || c == '\t') {
+            ls
+        } else {
+            at
+        }
+    };
+    for i in all_in {
+        let top = spans[i].3 == 1;
+        // (indentation of a nested statement is compared too; a top-level one has none)
+        // ... unless the statement shares its line with out-of-range text in front of it (in either output)
+        // ... and unless it is reached through an expression: the indentation of a function body inside an argument list or
+        // a table depends on how the enclosing (unformatted) construct happens to be laid out
+        let top = top || spans[i].3 >= 1000;
+        let starts_line = |txt: &str, at: usize| -> bool {
+            let ls = txt[..at].rfind('\n').map(|x| x + 1).unwrap_or(0);
+            txt[ls..at].chars().all(|c| c == ' ' || c == '\t')
+        };
+        let with_indent = !top && starts_line(&whole, ws[i].0) && starts_line(out, os[i].0);
+        let a = if with_indent { &whole[from(&whole, ws[i].0)..ws[i].2] } else { &whole[ws[i].0..ws[i].2] };
+        let b = if with_indent { &out[from(out, os[i].0)..os[i].2] } else { &out[os[i].0..os[i].2] };
         if a != b {
             // a statement that needs its `;` only because of its (unformatted) neighbour may differ in that `;`
             if a.trim_end_matches(';') == b.trim_end_matches(';') {
@@ -1049,6 +1088,15 @@ pub fn plans_for(prop: &str, thorough: bool) -> Vec<Plan> {
                 cases,
                 cfgs: cross(false, |b| vec![b, Cfg { cs: 3, ..b }]),
                 widths: Widths::Classes,
+                ranges: Ranges::TokenPoints,
+                oracles: O_RANGE,
+                u_cap: 400,
+            });
+            plans.push(Plan {
+                name: "ignored compound statements x every pair of range points (a range inside an ignored statement formats nothing)",
+                cases: gen::f_ign_compound(),
+                cfgs: cross(false, |b| vec![b]),
+                widths: Widths::Wide,
                 ranges: Ranges::TokenPoints,
                 oracles: O_RANGE,
                 u_cap: 400,
